@@ -5,6 +5,7 @@
 export GOFLAGS=-mod=mod GOPROXY=off GOSUMDB=off GOTOOLCHAIN=local GOWORK=off
 kind=$1; prefix=$2; N=${3:-8}; BIN=${4:-/verif/bin/sverif}
 out=/tmp/run_par_$$; mkdir -p $out
+head=$(git -C /repo rev-parse HEAD)
 ls -d /verif/$kind/$prefix*/ 2>/dev/null | sort > $out/list
 worker() {
   k=$1; wt=/tmp/wt_par_$$_$k
@@ -14,9 +15,23 @@ worker() {
     id=$(basename $d)
     if [ -f $d/OBSOLETE ]; then echo "$id: OBSOLETE"; continue; fi
     [ -f $d/patch.diff ] || continue
-    if ! git -C $wt apply $d/patch.diff 2>/dev/null; then echo "$id: SKIP (patch does not apply)"; git -C $wt checkout -q -- .; git -C $wt clean -fdq; continue; fi
+    # an entry written against an earlier commit of /repo whose patch conflicts with a later fix: commit carries a file
+    # base_commit; it is decided on that commit, and what that commit itself violates (the defects repaired since) is
+    # subtracted from the verdict
+    base=""; [ -f $d/base_commit ] && base=$(cat $d/base_commit)
+    if [ -n "$base" ]; then git -C $wt checkout -q --detach $base; fi
+    if ! git -C $wt apply $d/patch.diff 2>/dev/null; then echo "$id: SKIP (patch does not apply)"; git -C $wt checkout -q -- .; git -C $wt clean -fdq; [ -n "$base" ] && git -C $wt checkout -q --detach $head; continue; fi
     o=$($BIN all -repo $wt -verif $out/verif_$k 2>&1)
     git -C $wt checkout -q -- . ; git -C $wt clean -fdq
+    if [ -n "$base" ]; then
+      if [ ! -f $out/base_$base.keys ]; then
+        $BIN all -repo $wt -verif $out/verif_$k 2>&1 | grep -E "VIOLATED|UNDECIDED" | grep -o " R-[A-Z0-9-]* \[[^]]*\]" | sort -u > $out/base_$base.keys.$k; cp $out/base_$base.keys.$k $out/base_$base.keys
+      fi
+      # drop the obligations the base commit violates by itself, and the VIOLATION lines of properties left without any
+      o=$(echo "$o" | grep -E "VIOLATED|UNDECIDED" | grep -v -F -f $out/base_$base.keys)
+      o=$(echo "$o"; echo "$o" | python3 /verif/tools/props_of.py)
+      git -C $wt checkout -q --detach $head
+    fi
     props=$(echo "$o" | grep -o "VIOLATION property=C[0-9]*" | sort -u | sed 's/VIOLATION property=//' | tr '\n' ' ')
     rules=$(echo "$o" | grep -E "VIOLATED|UNDECIDED" | grep -o " R-[A-Z0-9-]* \[[^]]*\]" | sort -u | head -5 | tr '\n' ';')
     own=$(echo $id | cut -d- -f1)
